@@ -20,7 +20,8 @@ Definition mk_entries (cfg : list (N * N * N)) : list entry :=
 Definition cksum (bs : bytes) : N := fold_left (fun a b => N.land (a * 31 + b + 1) 4294967295) bs 7.
 
 Inductive ckind :=
-| CHonest (c secret seed : N) (akind port : N) (chunks : list (N * N)) (coalesce : bool) (corrupt : N)
+| CHonest (c secret seed : N) (akind port : N) (chunks : list (N * N)) (coalesce : bool)
+          (corrupt : N)   (* 0 none; 2j: payload ciphertext of wire chunk j; 2j+1: its sealed length *)
 | CGarbage (len seed : N)
 | CTrunc (c secret seed n : N).
 Record conn := { k_kind : ckind; k_fin : bool; k_validate : bool; k_connect_ok : bool; k_tout : N * N }.
@@ -69,11 +70,12 @@ Definition plain_chunks (akind port : N) (chunks : list (N * N)) (coalesce : boo
                 end in
   flat_map (chop 8) writes.
 
-(* offset of the first payload-ciphertext byte of wire chunk j (1-based) *)
-Fixpoint chunk_offset (tag : nat) (j : nat) (cs : list bytes) (acc : nat) : nat :=
+(* offset of wire chunk j (1-based): its first payload-ciphertext byte, or (lenblock) the
+   first byte of its sealed length *)
+Fixpoint chunk_offset (tag : nat) (lenblock : bool) (j : nat) (cs : list bytes) (acc : nat) : nat :=
   match j, cs with
-  | S O, _ => acc + 2 + tag
-  | S j', c :: r => chunk_offset tag j' r (acc + 2 + tag + length c + tag)
+  | S O, _ => if lenblock then acc else acc + 2 + tag
+  | S j', c :: r => chunk_offset tag lenblock j' r (acc + 2 + tag + length c + tag)
   | _, _ => acc
   end.
 Definition set_nth_w (i : nat) (x : wbyte) (l : list wbyte) : list wbyte :=
@@ -87,7 +89,7 @@ Definition wire_of (e : env) (i : N) (k : ckind) : env * list wbyte :=
       let pcs := plain_chunks akind port chunks coalesce in
       let '(e', w) := encode_stream e (i * 100000) key salt pcs in
       if corrupt =? 0 then (e', w)
-      else (e', set_nth_w (chunk_offset (tag_size (k_cipher key)) (N.to_nat corrupt) pcs (salt_size (k_cipher key))) (raw 255) w)
+      else (e', set_nth_w (chunk_offset (tag_size (k_cipher key)) (N.odd corrupt) (N.to_nat (corrupt / 2)) pcs (salt_size (k_cipher key))) (raw 255) w)
   | CGarbage len seed => (e, raws (gb len seed))
   | CTrunc c s seed n =>
       let key := mk_key c s in
